@@ -9,6 +9,7 @@ import Nq.Substdio
 import Nq.Dns
 import Nq.Users
 import Nq.Spawn
+import Nq.Gen.C20Bounds
 
 open Nq Drv
 
@@ -109,10 +110,10 @@ def handleQ (st : Stats) (f : List String) (inp : String) : IO Stats := do
     let lim := natOf limS; let nn := nnS == "1"; let a := natOf aS; let il := natOf ilS; let esc := natOf escS
     let ret := retS == "1"; let len2 := natOf len2S; let a2 := natOf a2S; let req := optNat reqS
     let mut st := st.bump ("Q" ++ (if ret then ".ok" else ".fail"))
-    let o := quoteDoit (fun k => decide (k ≤ lim)) ⟨nn, 0, if nn then a else 0, if nn then a else 0⟩ il esc
+    let o := quoteDoit Nq.Gen.C20Bounds.quoteSignedCounters (fun k => decide (k ≤ lim)) ⟨nn, 0, if nn then a else 0, if nn then a else 0⟩ il esc
     if !(o.ret == ret && o.x.len == len2 && o.x.a == a2 && o.req == req) then
       st ← note st "DISAGREE" true s!"kind=quote in={inp} impl={retS},{len2S},{a2S},{reqS} model={if o.ret then 1 else 0},{o.x.len},{o.x.a},{showOpt o.req}"
-    let okv := if ret then len2 == il + esc + 2 && len2 ≤ a2 && il + esc + 2 ≤ INT_MAX && okS == "1" else true
+    let okv := if ret then len2 == il + esc + 2 && len2 ≤ a2 && !o.ub && okS == "1" else true
     if !okv then
       st ← note st "ORACLE" false s!"kind=quote in={inp} impl={retS},{len2S},{a2S},{reqS} bounds-predicate-fails"
     return st
